@@ -207,7 +207,7 @@ fn answers(data_dir: &Path, ws: &Path, thread: &str, q: &Queries, only: Option<&
     }
     if want("handoff_cut") {
         let (s, t) = (store.clone(), t.clone());
-        if !put("handoff_cut", capped(move || s.handoff(&t, None, Some("handoff summary".into()), None, None, None, "u".into(), "cli".into()).map(|r| json!([r.1, r.2])).unwrap_or_else(|e| json!({"error": e}))), &mut out) {
+        if !put("handoff_cut", capped(move || s.handoff(&t, None, (Some("handoff summary".into()), None), None, None, ("u".into(), "cli".into())).map(|r| json!([r.1, r.2])).unwrap_or_else(|e| json!({"error": e}))), &mut out) {
             return out;
         }
     }
